@@ -100,7 +100,7 @@ br_ecdsa_i15_vrfy_raw(const br_ec_impl *impl,
 	if (!br_i15_decode_mod(s, (const unsigned char *)sig + rlen, rlen, n)) {
 		return 0;
 	}
-	if (br_i15_iszero(s)) {
+	if (br_i15_iszero(r) || br_i15_iszero(s)) {
 		return 0;
 	}
 
